@@ -3,6 +3,7 @@
 package main
 
 import (
+	"time"
 	"bufio"
 	"bytes"
 	"context"
@@ -159,6 +160,102 @@ type storeRun struct {
 	pid   string
 	desc  []string
 	viol  func(clause, sig, detail string)
+	// subscribers (C09): live subscriptions of the current handle and the event trace handed to Store/Subscribers.v
+	subs  []*subRec
+	subEv []string
+}
+
+type subRec struct {
+	ch    <-chan *certs.FinalityCertificate
+	close func()
+	live  bool
+	seen  int64 // instance of the last certificate taken, -1 = none
+}
+
+func (s *storeRun) latestInst() int64 {
+	if s.h == nil {
+		return -1
+	}
+	if l := s.h.Latest(); l != nil {
+		return int64(l.GPBFTInstance)
+	}
+	return -1
+}
+
+func (s *storeRun) subscribe() {
+	ch, cl := s.h.Subscribe()
+	s.subs = append(s.subs, &subRec{ch: ch, close: cl, live: true, seen: -1})
+	s.subEv = append(s.subEv, "SSub")
+	s.desc = append(s.desc, fmt.Sprintf("subscribe#%d", len(s.subs)-1))
+}
+
+// non-blocking read of subscriber k; whatever it returns must be the latest certificate
+func (s *storeRun) subRead(k int) int64 {
+	sb := s.subs[k]
+	got := int64(-1)
+	select {
+	case c := <-sb.ch:
+		if c != nil {
+			got = int64(c.GPBFTInstance)
+		}
+	default:
+	}
+	s.subEv = append(s.subEv, fmt.Sprintf("SRead %d%%nat %s", k, cZ(got)))
+	s.desc = append(s.desc, fmt.Sprintf("sub#%d reads %d", k, got))
+	if got >= 0 {
+		if got != s.latestInst() {
+			s.viol("subscribers observe the latest certificate", "store-subscriber-stale", fmt.Sprintf("subscriber %d read instance %d while the latest is %d", k, got, s.latestInst()))
+		}
+		if got <= sb.seen {
+			s.viol("subscribers observe each certificate at most once and in order", "store-subscriber-order", fmt.Sprintf("subscriber %d read %d after %d", k, got, sb.seen))
+		}
+		sb.seen = got
+	}
+	return got
+}
+
+func (s *storeRun) subReset() {
+	any := false
+	for _, sb := range s.subs {
+		if sb.live {
+			any = true
+		}
+		sb.live = false
+	}
+	if any || len(s.subs) > 0 {
+		s.subEv = append(s.subEv, "SReset")
+	}
+}
+
+// every live subscriber empties its slot: it must then have seen the latest certificate
+func (s *storeRun) subFinal() {
+	lat := s.latestInst()
+	for k, sb := range s.subs {
+		if !sb.live {
+			continue
+		}
+		s.subRead(k)
+		if sb.seen != lat {
+			s.viol("subscribers eventually observe the latest certificate", "store-subscriber-misses-latest",
+				fmt.Sprintf("subscriber %d has emptied its channel: last certificate seen %d, latest %d", k, sb.seen, lat))
+		}
+	}
+}
+
+// Put with a watchdog: a subscriber must never block the writer
+func (s *storeRun) putGuarded(ctx context.Context, c *certs.FinalityCertificate) (error, bool) {
+	if s.pid != "C09" || len(s.subs) == 0 {
+		return s.h.Put(ctx, c), true
+	}
+	done := make(chan error, 1)
+	h := s.h
+	go func() { done <- h.Put(ctx, c) }()
+	select {
+	case err := <-done:
+		return err, true
+	case <-time.After(5 * time.Second):
+		return nil, false
+	}
 }
 
 func (s *storeRun) newDS() {
@@ -277,6 +374,9 @@ func runStore(o *out, r *rng, thorough bool, pid string) {
 		open := func(kind int) {
 			var err error
 			var h *certstore.Store
+			if pid == "C09" && len(s.subs) > 0 {
+				s.subReset() // a new handle: the subscriptions of the old one are not served any more
+			}
 			switch kind {
 			case 0:
 				h, err = certstore.OpenStore(ctx, s.cds)
@@ -436,7 +536,34 @@ func runStore(o *out, r *rng, thorough bool, pid string) {
 				accepted++
 				continue
 			}
-			err := s.h.Put(ctx, put)
+			if pid == "C09" {
+				// subscribers: new ones at any time (also on a non-empty store), readers that lag behind by any number of puts
+				if r.chance(25) && len(s.subs) < 4 {
+					s.subscribe()
+				}
+				for k, sb := range s.subs {
+					if sb.live && r.chance(30) {
+						s.subRead(k)
+					}
+				}
+				for k, sb := range s.subs {
+					if sb.live && r.chance(4) {
+						sb.close()
+						sb.live = false
+						s.subEv = append(s.subEv, fmt.Sprintf("SClose %d%%nat", k))
+					}
+				}
+			}
+			latBefore := s.latestInst()
+			err, returned := s.putGuarded(ctx, put)
+			if !returned {
+				s.viol("subscribers never block writers", "store-writer-blocked-by-subscriber", fmt.Sprintf("Put of instance %d did not return within 5 s with %d subscriptions open", put.GPBFTInstance, len(s.subs)))
+				s.h = nil
+				break
+			}
+			if lat := s.latestInst(); pid == "C09" && lat != latBefore {
+				s.subEv = append(s.subEv, fmt.Sprintf("SPut %s", cZ(lat)))
+			}
 			code := storeErrCode(err)
 			if code < 0 {
 				s.viol("store errors are classified", "store-unknown-error", err.Error())
@@ -545,6 +672,14 @@ func runStore(o *out, r *rng, thorough bool, pid string) {
 			}
 		}
 	emit:
+		if pid == "C09" && len(s.subs) > 0 {
+			if s.h != nil {
+				s.subFinal()
+			}
+			o.coqCase(fmt.Sprintf("subscribers of history %d: %s", hi, strings.Join(s.subEv, "; ")),
+				fmt.Sprintf("sub_trace_ok None %s", cList(s.subEv)))
+			o.Dist["histories-with-subscribers"]++
+		}
 		o.coqCase(fmt.Sprintf("history %d: %s", hi, strings.Join(s.desc, " | ")),
 			fmt.Sprintf("history_ok %s %s %s", cList(toks), cU(s.freq), cList(s.ops)))
 		nt := accepted >= 1 && nonEmptyDelta && rejected >= 1
@@ -560,7 +695,7 @@ func runStore(o *out, r *rng, thorough bool, pid string) {
 		}
 		_ = violated
 	}
-	o.finish("From F3 Require Import GoInt Table Validate CertStore StoreRun.")
+	o.finish("From F3 Require Import GoInt Table Validate CertStore StoreRun Subscribers.")
 }
 
 func sortByID(pe gpbft.PowerEntries) gpbft.PowerEntries {
@@ -689,7 +824,28 @@ func runSnapshots(s *storeRun, g *certGen, first uint64, initial gpbft.PowerEntr
 		var mf2 *manifest.Manifest
 		mf2Term := "None"
 		kind := ""
-		switch r.intn(8) {
+		switch r.intn(10) {
+		case 8, 9:
+			// the header's initial table is the genuine one re-ordered, or with one entry repeated, while the manifest
+			// commits to the genuine table: the header disagrees with the manifest
+			if len(initial) < 2 {
+				continue
+			}
+			hinit = append(gpbft.PowerEntries{}, initial...)
+			if r.chance(50) {
+				i := r.intn(len(hinit) - 1)
+				hinit[i], hinit[i+1] = hinit[i+1], hinit[i]
+				kind = "header-table-reordered"
+			} else {
+				hinit = append(hinit, hinit[r.intn(len(hinit))])
+				kind = "header-table-duplicate"
+			}
+			addTok(hinit)
+			m := manifest.LocalDevnetManifest()
+			m.InitialInstance = first
+			m.InitialPowerTable, _ = certs.MakePowerTableCID(initial)
+			mf2 = &m
+			mf2Term = fmt.Sprintf("(Some (%s, Some %s))", cU(first), cZ(t.cid(m.InitialPowerTable)))
 		case 0:
 			if len(cs) < 2 {
 				continue
